@@ -103,7 +103,7 @@ func (st *IOState) checkIO(op Op, obs string, evs []IOEvent, writable bool) *Mis
 			}
 		case 'T':
 			st.Truncs++
-			if e.Label != "revert" || !writable {
+			if (e.Label != "revert" && e.Label != "vrev") || !writable {
 				return &Mismatch{Kind: "truncate-outside-revert", Expected: "only FlushRevert on the writable store truncates", Observed: fmt.Sprintf("Truncate(%d) during %q (writable=%v)", e.Off, e.Label, writable)}
 			}
 			if !e.Fail {
